@@ -134,6 +134,10 @@ theorem body_ich (e : Emu) (n : Int) : evalBody TermBodies.body_ich [] [n] e = i
   · exact ich_core e 1 _
   · exact ich_core e n _
 
+theorem body_rep (e : Emu) (n : Int) : evalBody TermBodies.body_rep [] [n] e = rep Fixes.current e n := by
+  simp only [TermBodies.body_rep, TermBodies.stmt_rep, rep]
+  body_norm
+
 /-- print(seq): charset translation, autowrap (wrapped flag + NEL), insert-mode shift, clamped write,
     trailing cells of a wide glyph, cursor advance and pending wrap — for every grapheme, every width,
     every state. -/
